@@ -273,10 +273,19 @@ def edit_check(ctx, prop, which):
     nt = 8 if ctx.tier == "quick" else 40
     cfgs = [("Edit_quick.cfg", nt, 2)] if ctx.tier == "quick" else [("Edit_thorough.cfg", nt, 2), ("Edit_double.cfg", 6, 1)]
     witness = None
-    for cfg, ntrees, ms in cfgs + [("soups", 0, 0)]:
+    extra = [("soups", 0, 0)] + ([("family", 0, 0)] if prop == "C18" else [])
+    for cfg, ntrees, ms in cfgs + extra:
         if cfg == "soups":
             gp = os.path.join(ctx.work, "soups.ndjson")
             ctx.vh_json(["soups", ctx.seed, 6000 if ctx.tier == "quick" else 100000, gp])
+        elif cfg == "family":
+            # the exhaustive name / position / allotment families of ShapeFam.tla (no verdict attached: analysed like the soups)
+            fgp, _, _ = family_gen(ctx, "Syntax_static1.cfg", "c18fam", scope="names")
+            gp = os.path.join(ctx.work, "family_docs.ndjson")
+            with open(gp, "w") as f:
+                for i, g in enumerate(read_ndjson(fgp)):
+                    t = g["text"]
+                    f.write(json.dumps(dict(id=i, text=t, lines=[len(x) for x in t.split("\n")], lexok=False, accepts=False, unspec=True, ntoks=0)) + "\n")
         else:
             gp, cnt = syntax_gen(ctx, ctx.seed, ntrees, ms, cfg, "edit_" + cfg.split(".")[0], module="Edit", workers=8)
         if witness is None:
